@@ -6,6 +6,7 @@ Every entry carries flags:
   strish  wire form is always a JSON string (C11)
 """
 import copy
+import json
 
 
 def L(id, schema, ff=True, enf=False, strish=False, **kw):
@@ -257,6 +258,73 @@ CONTEXT = {c["id"]: c for c in CONTEXTS}
 QUICK_CONTEXTS = ["def", "member_req", "member_opt", "vec_item", "ext_payload", "ref_member", "root"]
 
 
+VKINDS = ["unit", "newtype", "tuple", "struct_open", "struct_closed"]
+
+
+def _variant(tagging, kind, i, leaf_schema, dup):
+    """schema of variant number i (0-based) of the given kind under a tagging, or None when serde cannot express it.
+    Variant and member names are derived from the KIND (U, N, T, So, Sc; a second variant of one kind gets the suffix 2) so
+    that known findings can name the failing inputs independently of the variant's position."""
+    suffix = "2" if dup else ""
+    name = {"unit": "U", "newtype": "N", "tuple": "T", "struct_open": "So", "struct_closed": "Sc"}[kind] + suffix
+    m = {"struct_open": "o", "struct_closed": "c"}.get(kind, "") + suffix
+    payload_leaf = leaf_schema if i == 0 else [INT, BOOL][i - 1]
+    tup = {"type": "array", "items": [payload_leaf, INT] + ([BOOL] * i), "minItems": 2 + i, "maxItems": 2 + i}
+    st = obj({"x" + m: payload_leaf, "y" + m: INT}, ["x" + m])
+    if kind == "struct_closed":
+        st["additionalProperties"] = False
+    body = {"newtype": payload_leaf, "tuple": tup, "struct_open": st, "struct_closed": st}.get(kind)
+    if tagging == "ext":
+        if kind == "unit":
+            return {"type": "string", "enum": [name]}
+        return obj({name: body}, [name], additionalProperties=False)
+    if tagging == "adj":
+        tag = {"type": "string", "enum": [name]}
+        if kind == "unit":
+            return obj({"t": tag}, ["t"])
+        return obj({"t": tag, "c": body}, ["t", "c"])
+    if tagging == "int":
+        tag = {"type": "string", "enum": [name]}
+        if kind == "unit":
+            return obj({"t": tag}, ["t"])
+        if kind in ("struct_open", "struct_closed"):
+            v = obj(dict(st["properties"], t=tag), ["t"] + st["required"])
+            if kind == "struct_closed":
+                v["additionalProperties"] = False
+            return v
+        return None
+    if tagging == "unt":
+        if kind == "unit":
+            return {"type": "null"} if i == 0 else None
+        return body
+    return None
+
+
+def tagged_family(tier):
+    """systematic product: tagging x ordered tuples of variant kinds (pairs; thorough also triples) x payload leaf"""
+    out = []
+    leaves = ["string"] if tier == "quick" else ["string", "str_max2", "enum_ab"]
+    import itertools as _it
+    for tagging in ("ext", "adj", "int", "unt"):
+        combos = list(_it.product(VKINDS, repeat=2))
+        if tier != "quick":
+            combos += [c for c in _it.product(VKINDS, repeat=3) if len(set(c)) == 3][::2]
+        for kinds in combos:
+            for lid in leaves:
+                leaf = LEAF[lid]
+                vs = [_variant(tagging, k, i, leaf["schema"], k in kinds[:i]) for i, k in enumerate(kinds)]
+                if any(v is None for v in vs):
+                    continue
+                if tagging == "unt" and len({json.dumps(v, sort_keys=True) for v in vs}) < len(vs):
+                    continue
+                closed_all = all(k != "struct_open" for k in kinds)
+                sh = L("%s[%s](%s)" % (tagging, ",".join(kinds), lid), {"oneOf": vs}, ff=leaf["ff"], enf=leaf["enf"] and closed_all and tagging != "unt")
+                sh["tg"] = {"tg": tagging, "has_unit": "unit" in kinds, "has_open": "struct_open" in kinds, "has_closed": "struct_closed" in kinds,
+                            "has_other": any(k in ("newtype", "tuple") for k in kinds)}
+                out.append(sh)
+    return out
+
+
 def shapes_depth2(tier):
     """(L ∪ K(default leaves)) — list of shape dicts."""
     out = []
@@ -270,6 +338,7 @@ def shapes_depth2(tier):
                 seen.add(k["id"])
                 out.append(k)
     out.extend(SOLO_COMPOSITES)
+    out.extend(tagged_family(tier))
     return out
 
 
@@ -287,7 +356,7 @@ def place(shape, ctx):
     target = None if ctx["id"] == "root" else "T"
     return {"id": "%s@%s" % (shape["id"], ctx["id"]), "doc": doc, "target": target, "ff": shape["ff"] and ctx["ff"],
             "enf": shape["enf"] and ctx["enf"], "strish": shape.get("strish", False) and ctx["id"] in ("def", "ref_alias", "allof1"),
-            "shape": shape["id"], "ctx": ctx["id"]}
+            "shape": shape["id"], "ctx": ctx["id"], "tg": shape.get("tg")}
 
 
 def space_depth2(tier, contexts=None):
